@@ -1672,6 +1672,11 @@ def mon_C13(run):
                 oid = obj.split(":")[0]
                 if last.get(oid) != obj:
                     bad.append((k, f"{name} saw metrics {obj}, the object's last hand-out reported {last.get(oid)}"))
+            elif name == "accessor":
+                # raised by the harness (show_obj): Metrics::age() / last_used() read outside
+                # the two readings of the field they are computed from
+                bad.append((k, f"Metrics::{args[2]}() of object {args[1]} disagrees with the "
+                               f"created / recycled instants it is computed from"))
             elif name == "post_create":
                 f = args[2].split(":")
                 if f[1] != "0" or f[3] != "-":
